@@ -327,13 +327,26 @@ def run(tier, seed):
     n_nested_cases = len(cases)
 
     # ---- 3. flat streams x pairs and triples of formats ------------------------------------------------------------
-    pairs, triples = fam["pairs"], fam["triples"]
-    rnd.shuffle(pairs)
-    rnd.shuffle(triples)
-    if not thorough:
-        pairs, triples = pairs[:2400], triples[:600]
-    else:
-        pairs, triples = pairs[:40000], triples[:15000]
+    def stratified(cs, quota):
+        """A seeded sample that takes the same number of cases from every format path, as far as the quota goes."""
+        groups = {}
+        for c in cs:
+            groups.setdefault(tuple(c["path"]), []).append(c)
+        keys = sorted(groups)
+        rnd.shuffle(keys)
+        for k in keys:
+            rnd.shuffle(groups[k])
+        out, depth = [], 0
+        while len(out) < quota and any(len(groups[k]) > depth for k in keys):
+            for k in keys:
+                if len(groups[k]) > depth and len(out) < quota:
+                    out.append(groups[k][depth])
+            depth += 1
+        return out
+
+    all_pairs, all_triples = fam["pairs"], fam["triples"]
+    pairs = stratified(all_pairs, 40000 if thorough else 2400)
+    triples = stratified(all_triples, 15000 if thorough else 600)
     for c in pairs + triples:
         add_path(c["path"], c["sep"], c["noun"], c["s"], render(c["path"][0], c["s"], num=len(cases) % 2 == 0), "flat")
 
@@ -500,20 +513,25 @@ def run(tier, seed):
     cov.update({
         "states": states, "transitions": transitions, "traces_validated_against_impl": len(obs), "evaluations": len(cases) + len(rb_cases),
         "distinct_nontrivial": nontrivial,
-        "rule": "laws: every nested record of depth <= 3 (<= 2 fields per level) x separators . : ; on the specification; binding: every one of "
-                "those records through JSON -> tabular -> JSON pipelines (batched %d per process, %d records in all), %d flat stream x format "
-                "pair/triple pipelines (%s), and every entry of the documented flag table (%d entries: %s) run next to its expansion; "
-                "non-trivial = nested batches + distinct (path, flat stream) + distinct (formats, output text) of table entries"
-                % (bsize, nrec, len(pairs) + len(triples), "all" if thorough else "seeded sample", len(flags),
+        "rule": "laws (TLC, on the specification): every nested record of depth <= 3 with <= 2 fields per map / elements per array over the key "
+                "and scalar sets %s (%d records) x separators . : ;, plus %d records whose keys contain a separator; binding: every one of those "
+                "records through at least one JSON -> tabular (-> tabular) -> JSON pipeline (batched <= %d per process; %d records went through "
+                "pipelines), %d flat stream x format pair/triple pipelines (%s of the %d + %d enumerated, the same number per format path), and "
+                "every entry of the documented flag table (%d entries: %s) run next to its expansion; non-trivial = nested batches + distinct "
+                "(path, flat stream) + distinct (formats, output text) of table entries"
+                % (" and ".join("%d keys x %d scalars" % sp for sp in spaces), len(fam["nested"]), len(fam["sepkeys"]), bsize, nrec,
+                   len(pairs) + len(triples), "a seeded sample", len(all_pairs), len(all_triples), len(flags),
                    ", ".join("%s %d" % kv for kv in sorted(grp.items()))),
-        "exhaustive": bool(thorough), "flag_table_exhaustive": True, "flag_entries": len(flags), "flag_groups": grp,
+        "exhaustive": False, "flag_table_exhaustive": True, "nested_records_exhaustive": True, "flag_entries": len(flags), "flag_groups": grp,
+        "format_pairs_run": len({tuple(c["path"][:2]) for c in pairs}), "format_triples_run": len({tuple(c["path"][:3]) for c in triples}),
+        "pair_cases_enumerated": len(all_pairs), "triple_cases_enumerated": len(all_triples),
         "conversion_pipelines": npath, "records_through_pipelines": nrec, "outside_domain": outside,
     })
     rc = V.finish()
     vlib.write_evidence(PROP, tier, seed, time.time() - t0, cov, [
         "cells are benign (letters, digits, empty; keys may contain the flatten separators . : ;): quoting and escaping is C01's question; "
         "a scalar is its text (7 and \"7\" are the same cell): typing is C03/C06's",
-        "nested records: depth <= 3, <= 2 fields per map / elements per array, 3 (thorough: 4) keys including the array-like 1 and 2",
+        "nested records: depth <= 3, <= 2 fields per map / elements per array, keys a,(b,)1,2 (1 and 2 make array-like maps), scalars \"\", x(, 7)",
         "which format can carry which stream (Carries in Convert.tla) is argued from file-formats.md / record-heterogeneity.md; "
         "streams outside it are not run",
         "the flag table is transcribed from reference-main-flag-list.md, file-formats.md, reference-main-separators.md, customization.md and "
